@@ -18,6 +18,10 @@ pub enum GK {
     Advance { best: bool, replies: Vec<u32> },
     /// (no I/O) take back n plies of the GUI's game record
     Retreat(u32),
+    /// (no I/O) repetition shuffle: with m the last move of the record (leading to position Q) and b the engine's last
+    /// bestmove (its answer at Q), append b, m reversed, b reversed, m - the record is back at Q with the same move
+    /// five plies back, which is what the engine's repetition filter looks for. No-op when the moves are not reversible.
+    RepeatAfterBest,
     /// send `go wtime .. btime .. winc .. binc ..` with (own, own_inc) given to the side to move of the
     /// GUI's current game record and (opp, opp_inc) to the other side
     GoClock { own: u64, own_inc: u64, opp: u64, opp_inc: u64 },
@@ -53,6 +57,16 @@ pub struct DItem {
     /// chosen stop index k, each on a fresh copy. k ranges over all of 0..=P when P <= all_upto, otherwise over
     /// 0..=head, the polls around each `info depth` line, and `samples` seeded values.
     pub sweep: Option<Sweep>,
+    /// table-guided descent: the position of this item is the previous item's position extended by up to `plies`
+    /// legal moves, chosen (by `pick`) among the extensions whose hash the shared table currently holds - i.e.
+    /// among the interior nodes earlier searches stored entries for. `moves` is ignored.
+    pub descend: Option<Descend>,
+}
+
+#[derive(Clone, Debug, PartialEq)]
+pub struct Descend {
+    pub plies: u8,
+    pub pick: u64,
 }
 
 #[derive(Clone, Debug, PartialEq)]
@@ -141,6 +155,7 @@ impl Case {
                     GK::PosCur => ("position-current", Value::Null),
                     GK::Advance { best, replies } => ("advance", json!({"best": best, "replies": replies})),
                     GK::Retreat(n) => ("retreat", json!(n)),
+                    GK::RepeatAfterBest => ("repeat-after-bestmove", Value::Null),
                     GK::GoClock { own, own_inc, opp, opp_inc } => ("go-clock", json!({"own": own, "own_inc": own_inc, "opp": opp, "opp_inc": opp_inc})),
                     GK::AwaitBest => ("await-bestmove", Value::Null),
                     GK::AwaitReady => ("await-readyok", Value::Null),
@@ -155,7 +170,8 @@ impl Case {
             .items
             .iter()
             .map(|i| json!({"root": i.root, "moves": i.moves, "depth": i.depth, "stop_at": i.stop_at, "fresh": i.fresh, "isolated": i.isolated,
-                "sweep": i.sweep.as_ref().map(|w| json!({"all_upto": w.all_upto, "head": w.head, "samples": w.samples, "seed": w.seed}))}))
+                "sweep": i.sweep.as_ref().map(|w| json!({"all_upto": w.all_upto, "head": w.head, "samples": w.samples, "seed": w.seed})),
+                "descend": i.descend.as_ref().map(|d| json!({"plies": d.plies, "pick": d.pick}))}))
             .collect();
         let policy = match &self.params.policy {
             Policy::Np => json!({"kind": "np"}),
@@ -266,6 +282,7 @@ impl Case {
                     replies: a["replies"].as_array().ok_or("replies")?.iter().filter_map(|x| x.as_u64().map(|y| y as u32)).collect(),
                 },
                 "retreat" => GK::Retreat(a.as_u64().ok_or("retreat")? as u32),
+                "repeat-after-bestmove" => GK::RepeatAfterBest,
                 "go-clock" => GK::GoClock { own: u(a, "own")?, own_inc: u(a, "own_inc")?, opp: u(a, "opp")?, opp_inc: u(a, "opp_inc")? },
                 "await-bestmove" => GK::AwaitBest,
                 "await-readyok" => GK::AwaitReady,
@@ -291,6 +308,7 @@ impl Case {
                 } else {
                     None
                 },
+                descend: if it["descend"].is_object() { Some(Descend { plies: u(&it["descend"], "plies")? as u8, pick: u(&it["descend"], "pick")? }) } else { None },
             });
         }
         Ok(Case {
